@@ -173,6 +173,15 @@ def handleE2E (mode : String) (code : Nat) (msg det : Bytes) (req resp stmd : Li
           | some (.status s) => "err" :: renderSt v s
           | some .panic => ["panic"]
           | none => ["no-status"])
+    else if mode == "umix" then
+      let h := responseWire respmd
+      let cl := match Status.toHeaderMap v st with
+        | .error e => "err" :: renderSt v e
+        | .ok t => match Status.streamEnd v [t] 200 with
+          | .err s => "err" :: renderSt v { s with metadata := HMap.extend s.metadata h }
+          | .finished _ => ["unmodelled"]
+          | .panic => ["panic"]
+      (HMap.render h, cl)
     else
       let h := responseWire respmd
       let tail := match Status.toHeaderMap v st with
@@ -225,6 +234,22 @@ def handleE2E (mode : String) (code : Nat) (msg det : Bytes) (req resp stmd : Li
                       ("status-message-on-wire-decodes", msg.isEmpty || (HMap.getAll (HMap.name "grpc-message") pw).map Pct.decode == [msg]),
                       ("client-sees-status", c == toString code && m == hex msg && d == hex det),
                       ("client-sees-status-metadata", sameRows (nonProtocol cr) sentSt)]
+                  | _ => [("observed-parses", false)]
+                | _ => common ++ [("failed-call-fails", false)]
+              else if mode == "umix" then
+                match clientT with
+                | "err" :: c :: m :: d :: rows =>
+                  match parseRows rows with
+                  | some (cr, []) =>
+                    -- names present both in the response headers and in the status trailers are
+                    -- merged by replacement (headers win); the clause speaks about the others
+                    let respNames := sentResp.map (fun r => r.2.1)
+                    let stOnly := sentSt.filter (fun r => !respNames.contains r.2.1)
+                    let stNames := sentSt.map (fun r => r.2.1)
+                    common ++ [respReserved responseOwn,
+                      ("client-sees-status", c == toString code && m == hex msg && d == hex det),
+                      ("client-sees-response-metadata", sameRows ((nonProtocol cr).filter (fun r => respNames.contains r.2.1)) (nonProtocol sentResp)),
+                      ("client-sees-status-metadata", sameRows ((nonProtocol cr).filter (fun r => !respNames.contains r.2.1 && stNames.contains r.2.1)) stOnly)]
                   | _ => [("observed-parses", false)]
                 | _ => common ++ [("failed-call-fails", false)]
               else
@@ -375,6 +400,42 @@ def handle (case obs : List String) : String × String :=
             | _ => [("observed-parses", false)]
           | none => [("observed-parses", false)]
         (join model, verdict vd)
+  | "hmap" :: n :: rest =>
+    match nat? n with
+    | none => bad
+    | some n =>
+      let rec runH : Nat → List String → HMap → List String → Option (HMap × List String)
+        | 0, [], m, acc => some (m, acc.reverse)
+        | 0, _, _, _ => none
+        | k + 1, "ins" :: key :: val :: more, m, acc =>
+          match unhex key, unhex val with
+          | some key, some val => runH k more (HMap.insert key val m) (("prev:" ++ optHex (HMap.get key m)) :: acc)
+          | _, _ => none
+        | k + 1, "app" :: key :: val :: more, m, acc =>
+          match unhex key, unhex val with
+          | some key, some val => runH k more (HMap.append key val m) (("existed:" ++ (if HMap.hasKey key m then "1" else "0")) :: acc)
+          | _, _ => none
+        | k + 1, "rm" :: key :: more, m, acc =>
+          match unhex key with
+          | some key => runH k more (HMap.remove key m) (("removed:" ++ optHex (HMap.get key m)) :: acc)
+          | none => none
+        | k + 1, "get" :: key :: more, m, acc =>
+          match unhex key with
+          | some key =>
+            let tok := match HMap.normName key with
+              | some nm => "got:" ++ optHex (HMap.get nm m) ++ ":" ++ (if HMap.hasKey nm m then "1" else "0") ++ ":" ++
+                  String.intercalate "," ((HMap.getAll nm m).map hex)
+              | none => "got:none:0:"
+            runH k more m (tok :: acc)
+          | none => none
+        | k + 1, "ext" :: more, m, acc =>
+          match HMap.parse more with
+          | some (o, more') => runH k more' (HMap.extend m o) ("extended" :: acc)
+          | none => none
+        | _ + 1, _, _, _ => none
+      match runH n rest [] [] with
+      | none => bad
+      | some (m, toks) => (join (toks ++ ("map" :: HMap.render m)), "ok")
   | "e2e" :: mode :: c :: m :: d :: rest =>
     match nat? c, unhex m, unhex d, parseTyped rest with
     | some c, some m, some d, some (req, r1) =>
